@@ -129,14 +129,16 @@ Case(n_) ==
     LET kind_ == Pick(<<"bvp_s", "bvp_chan", "lin", "ivp_s", "robust_exact", "robust_smooth", "lap", "mol", "bvp_off", "robust_core">>, n_)
         m_ == n_ \div 10
         ctr_ == Pick(Centres, m_ \div 3)
-        cs_ == Pick(CoefSets, m_ \div 2)
-        sterms_ == [k_ \in 1..Len(cs_) |-> STerm(cs_[k_], Pick(Env, m_ + k_), Zero3)]
         l1_ == CTerm(1, (m_ % 3) + 1, Pick(<<QI(1), QI(-2), Q(3, 2)>>, m_), Pick(Env, m_ + 1))
         l2_ == CTerm(2, (m_ % 5) + 1, Pick(<<Q(1, 2), QI(1), QI(-1)>>, m_ \div 2), Pick(Env, m_ + 2))
         off_ == Pick(<< <<QI(0), QI(0), Q(1, 10)>>, <<Q(1, 10), Q(-1, 10), QI(0)>> >>, m_)
         sep_ == Pick(<<QI(8), QI(10), QI(7)>>, m_)
         nat_ == IF kind_ = "mol" THEN Pick(<<2, 2, 3>>, m_ \div 3)
                 ELSE IF kind_ \in {"robust_exact", "robust_smooth", "robust_core"} /\ m_ % 4 = 3 THEN 2 ELSE 1
+        \* molecules: at least one Gaussian per atom (term k sits on atom ((k-1) mod nat) + 1)
+        cs_ == IF kind_ = "mol" THEN (IF nat_ = 3 THEN CoefSets[3] ELSE Pick(<<CoefSets[2], CoefSets[3]>>, m_))
+               ELSE Pick(CoefSets, m_ \div 2)
+        sterms_ == [k_ \in 1..Len(cs_) |-> STerm(cs_[k_], Pick(Env, m_ + k_), Zero3)]
         atoms_ == [j_ \in 1..nat_ |-> IF j_ = 1 THEN ctr_
                                        ELSE IF j_ = 2 THEN VAdd(ctr_, <<sep_, QI(0), QI(0)>>)
                                        ELSE VAdd(ctr_, <<QI(0), sep_, QI(0)>>)]
@@ -156,6 +158,9 @@ Case(n_) ==
         origin |-> origin_,
         boundary |-> IF nat_ = 1 THEN Pick(<<"auto", "exact">>, m_ \div 4) ELSE "auto",
         split2 |-> Pick(Bool, m_),
+        \* remove_large_pts: radial points beyond it are dropped, the boundary value is then imposed at the
+        \* last remaining point (~40 bohr instead of ~1e8, where it has no influence on V) - spherical cases only
+        rcut |-> IF kind_ = "bvp_s" THEN Pick(<<0, 40, 0, 60>>, m_ \div 2) ELSE 0,
         sep |-> sep_,
         lin |-> <<Pick(<<QI(2), QI(-1), Q(1, 2)>>, m_), Pick(<<QI(-3), QI(1), QI(2)>>, m_ \div 3)>>,
         \* robust_exact: rho = fitted core model of the elements; robust_core: core model + terms;
@@ -178,7 +183,8 @@ CaseAdmissible(c_) ==
           /\ QLe(QMul(c_.terms[k_].alpha, Norm1(c_.terms[k_].d)), <<1, 5>>)
           /\ c_.terms[k_].l \in Ls /\ c_.terms[k_].i \in 1..Len(Harm[c_.terms[k_].l])
           /\ c_.terms[k_].c # QZero
-    /\ (c_.kind = "mol" => QLe(QI(6), c_.sep))
+    /\ (c_.kind = "mol" => QLe(QI(6), c_.sep) /\ Len(c_.terms) >= Len(c_.atoms))
+    /\ (c_.rcut # 0 => c_.rcut >= 40 /\ \A k_ \in 1..Len(c_.terms) : c_.terms[k_].l = 0)
     /\ c_.grid.deg \div 2 >= 2                 \* channels l <= 2 are inside the expansion
     /\ (~c_.origin => c_.grid.map = "Handy2")   \* u(first radial point) = 0 is then accurate to ~1e-9
     /\ (c_.origin => Len(c_.atoms) = 1 /\ \A k_ \in 1..Len(c_.terms) : c_.terms[k_].l = 0 /\ c_.terms[k_].d = Zero3)
